@@ -57,7 +57,7 @@ deriving Inhabited
 structure Env where
   base  : List (String × Obj)       -- injected names
   vars  : List (String × Val)       -- the rule's locals
-  trace : List (String × List Val)  -- calls of injected observer functions, in order
+  trace : List (String × List Val)  -- calls of injected observer functions, latest first
 deriving Inhabited
 
 def Env.lookupBase (e : Env) (n : String) : Option Obj := (e.base.find? (fun p => p.1 == n)).map (·.2)
@@ -184,7 +184,12 @@ def setSingle (o : Obj) (v : Val) : Res Obj :=
        | _ => .err none)
     else .err none
   | .val _ | .func _ => .err none        -- "value is unassignable"
-  | .struct true _ | .map true _ _ _ | .slice true _ _ _ => .panic   -- Set with a value of another type
+  -- a pointer to a container: `Set` panics when the value has the same kind but another type
+  -- (the generated programs never assign a container to itself); any other kind is an error
+  | .map true _ _ _ => (match v with | .other .map _ | .other .ptr _ => .panic | _ => .err none)
+  | .slice true false _ _ => (match v with | .other .slice _ | .other .ptr _ => .panic | _ => .err none)
+  | .slice true true _ _ => (match v with | .other .array _ | .other .ptr _ => .panic | _ => .err none)
+  | .struct true _ => (match v with | .other .struct _ | .other .ptr _ => .panic | _ => .err none)
   | _ => .err none
 
 /-- DataContext.SetValue. -/
